@@ -219,7 +219,7 @@ def monitor_cases(rng, tier, stats):
             r = box.get("ratio")
             if r is None:
                 return "amen_solve raised or returned a wrong shape"
-            if r > C_RES:
+            if not (r <= C_RES):      # NaN-safe
                 fnd = "[finding:C12/bicgstab-local-solver-residual] " if ("/ls2" in label and r <= C_BICG_KNOWN) else ""
                 return fnd + "relative residual %.3g*eps exceeds %g*eps (eps=%.2g, %s)" % (r, C_RES, eps, label)
             return None
